@@ -25,7 +25,7 @@ ASSUMPTIONS = ["kill points are enumerated with -j1 (deterministic order)",
                "Bob's own death is emulated in-process (a BaseException at the kill point; every later instrumented "
                "mutation raises it again) because forking is very slow here; a script killing Bob (kill -9) uses a real "
                "forked child; every suspected violation is re-run with real processes and a real os._exit before it is reported"]
-TIME_BUDGET = {"quick": 280, "thorough": 1700}
+TIME_BUDGET = {"quick": 240, "thorough": 1700}
 BATCH = 8
 
 class Killed(BaseException):
